@@ -7,9 +7,11 @@
 //! Exit codes: 0 property held on everything explored; 1 violation (a line
 //! "VIOLATION property=<id> replay=<path>" is printed); 2 harness error.
 
-mod c16;
-mod c18;
+#[macro_use]
 mod core;
+mod c16;
+mod c17;
+mod c18;
 mod rng;
 mod sched;
 
@@ -24,7 +26,7 @@ fn usage() -> ! {
 
 fn run_one<P: Prop>(p: &P, opt: &Options) -> i32 {
     let r = run_batch(p, opt);
-    println!(
+    say!(
         "property={} tier={} seed={} runs={} steps={} wall_s={:.2} runs_per_hour={} digest={:016x} violations={} known_findings={}",
         p.id(),
         opt.tier.name(),
@@ -39,14 +41,14 @@ fn run_one<P: Prop>(p: &P, opt: &Options) -> i32 {
     );
     let missing: Vec<&str> = p.required_probes(opt.tier).into_iter().filter(|n| r.stats.get(&format!("probe.{n}")) == 0).collect();
     if !missing.is_empty() && opt.runs_override.is_none() && opt.max_seconds.is_none() {
-        println!("NOTE property={} probes never hit in this batch: {:?}", p.id(), missing);
+        say!("NOTE property={} probes never hit in this batch: {:?}", p.id(), missing);
     }
     if std::env::var("SIMCHECK_VERBOSE").is_ok() {
         for (k, v) in &r.stats.counters {
-            println!("  {k} = {v}");
+            say!("  {k} = {v}");
         }
         for (k, v) in &r.stats.distinct {
-            println!("  distinct {k} = {}", v.len());
+            say!("  distinct {k} = {}", v.len());
         }
     }
     r.exit_code
@@ -117,6 +119,10 @@ fn main() {
             }
             let code = match id.as_str() {
                 "C16" => run_one(&c16::C16, &opt),
+                "C17" => {
+                    silence_library_stdout();
+                    run_one(&c17::C17, &opt)
+                }
                 "C18" => run_one(&c18::C18, &opt),
                 _ => {
                     eprintln!("HARNESS-ERROR unknown or unclaimed property {id}");
@@ -139,6 +145,10 @@ fn main() {
             }
             let code = match doc["property"].as_str().unwrap_or("") {
                 "C16" => replay_file(&c16::C16, &doc),
+                "C17" => {
+                    silence_library_stdout();
+                    replay_file(&c17::C17, &doc)
+                }
                 "C18" => replay_file(&c18::C18, &doc),
                 other => {
                     eprintln!("HARNESS-ERROR unknown property in replay file: {other}");
